@@ -363,6 +363,7 @@ func TestC26(t *testing.T) {
 	r := newRun(t, "C26", "exploration")
 	defer r.Finish()
 	r.Rule = "both maker roles × both chains × taker behaviour {silence, cancel, coop_close with a wrong key} are driven to a CSV refund on a real node; then the policy file, a fresh policy from that file, 4 incoming requests from the peer, 2 local initiations towards it and a real PeerSync instance (same policy object, fake Lightning port, a second connected peer as control) are examined, before and after a restart. distinct = (chain, role, phase, follow-up kind, outcome)"
+	r.Rule += " Three earlier-quarantined peers (unsorted) and an admitted control peer exist; the policy file is either written by the node or hand-edited with a last line (quarantine or allowlist entry) without line end; in half of the silent-taker histories the node is killed at the quarantine write and restarted; the peer-sync store already holds the peer's record from before the swap."
 	r.Assumptions = []string{"peer-sync is instantiated by the harness with the node's policy and premium objects exactly as the mains do"}
 	var cases []c26Case
 	for _, ch := range []string{"btc", "lbtc"} {
